@@ -130,6 +130,33 @@ def corrupt_leaf(sym, fmt, path, rule, maxlen, getter, k, via="loads"):
     sym.check("what-was-loaded-can-be-written", writable(obj))
 
 
+PARENT_ARCHES = {"Server-HA": ["x86_64", "s390x"], "Server-HA-Deep": ["x86_64"], "Server-optional": ["x86_64", "s390x"]}
+
+
+def variant_arches(sym, uid, k):
+    """the arch list of a nested variant takes any selection of names: the document is loaded exactly when the selection is non-empty,
+    inside the arch set of the variant's own parent, and still covers the arches of the variant's children"""
+    doc = base_doc("composeinfo", k)
+    chosen = []
+    for i, a in enumerate(["x86_64", "s390x", "ppc64le"]):
+        if sym.bool("has%d" % i):
+            chosen.append(a)
+    doc["payload"]["variants"][uid]["arches"] = chosen
+    sym.cover("corrupted")
+    children = [u for u in doc["payload"]["variants"] if u.startswith(uid + "-") and u.count("-") == uid.count("-") + 1]
+    ok = len(chosen) > 0 and all(a in PARENT_ARCHES[uid] for a in chosen) and \
+        all(a in chosen for c in children for a in doc["payload"]["variants"][c]["arches"])
+    obj = ComposeInfo()
+    try:
+        obj.loads(json.dumps(doc))
+        raised = False
+    except Exception:
+        raised = True
+    sym.check("loaded-iff-arches-fit-parent-and-children", raised == (not ok))
+    if not raised:
+        sym.check("what-was-loaded-can-be-written", writable(obj))
+
+
 def header_type(sym, fmt, k):
     """a header naming another metadata type is rejected from format 1.1 on"""
     doc = base_doc(fmt, k)
@@ -382,6 +409,8 @@ def jobs(tier, seed):
             if a == "path":
                 continue        # the path orders the cell; it is checked through the first image only below
             leaf("images", ["payload", "images", variant, arch, idx, a], r, m, ["images", [variant, arch, idx], a])
+    for uid in sorted(PARENT_ARCHES):
+        out.append({"harness": "variant_arches", "params": {"uid": uid, "k": k}})
     for fmt in CLASSES:
         out.append({"harness": "header_type", "params": {"fmt": fmt, "k": k}})
         out.append({"harness": "header_version", "params": {"fmt": fmt, "k": k}})
@@ -436,7 +465,7 @@ def jobs(tier, seed):
 
 
 META = {
-    "expected_covers": {"corrupt_leaf": ["corrupted"], "header_type": ["loaded"], "header_version": ["loaded"], "delete_key": ["loaded"],
+    "expected_covers": {"variant_arches": ["corrupted"], "corrupt_leaf": ["corrupted"], "header_type": ["loaded"], "header_version": ["loaded"], "delete_key": ["loaded"],
                         "images_identity_collision": ["loaded"], "tree_corrupt_option": ["corrupted"], "tree_child_misaligned": ["corrupted"], "tree_platforms": ["corrupted"], "tree_header": ["loaded"], "tree_version": ["loaded"], "tree_delete": ["loaded"]},
     "assumptions": [
         "documents reach the reader through loads(text), load(path) on the symbolic file system, or load('http://...') answered by the urlopen model (rotating per job)",
